@@ -110,9 +110,23 @@ func (c *tqClient) Batch(remote string, bReq *batchRequest) (*BatchResponse, err
 	}
 
 	for _, obj := range bRes.Objects {
+		if obj == nil {
+			// A JSON null in place of an object.
+			return nil, errors.Wrap(errors.New(tr.Tr.Get("invalid object in response")), tr.Tr.Get("batch response"))
+		}
 		obj.Missing = missing[obj.Oid]
-		for _, a := range obj.Actions {
+		for rel, a := range obj.Actions {
+			if a == nil {
+				// A JSON null in place of an action: no such action.
+				delete(obj.Actions, rel)
+				continue
+			}
 			a.createdAt = requestedAt
+		}
+		for rel, a := range obj.Links {
+			if a == nil {
+				delete(obj.Links, rel)
+			}
 		}
 	}
 
